@@ -209,7 +209,7 @@ func ruleOwnMut(p *Prog, r *Reporter) {
 				}
 				// a stateful object kept in a package variable of the repository (buffered reader, pool of readers, hash)
 				// and handed, as an interface, to code outside the repository that calls its methods
-				if g, isG := ao.root.(*ssa.Global); bad == "" && isG && g.Pkg != nil && shortNames[g.Pkg.Pkg.Path()] != "" {
+				if g, isG := ao.root.(*ssa.Global); bad == "" && isG && g.Pkg != nil && shortNames[g.Pkg.Pkg.Path()] != "" && !o.aliasOfExternalGlobal(g) {
 					if _, isI := a.Type().Underlying().(*types.Interface); isI && !isErrorType(a.Type()) {
 						for _, callee := range callees {
 							if (callee.Blocks == nil || !p.isRepoFunc(callee)) && !readOnlyExternal(calleeName(callee)) {
@@ -467,8 +467,53 @@ func (o *ownAnalysis) repoGlobalLeaf(v ssa.Value, depth int) *ssa.Global {
 		return o.repoGlobalLeaf(x.X, depth+1)
 	case *ssa.UnOp:
 		if g, ok := x.X.(*ssa.Global); ok && x.Op == token.MUL && g.Pkg != nil && shortNames[g.Pkg.Pkg.Path()] != "" {
+			if o.aliasOfExternalGlobal(g) {
+				return nil // var defaultRNG = rand.Reader: another name for the standard library's own (concurrency-safe) object
+			}
 			return g
 		}
 	}
 	return nil
+}
+
+// aliasOfExternalGlobal: every store to the repository package variable g (its initialiser included)
+// stores the value of a package variable of another module (e.g. crypto/rand.Reader).
+func (o *ownAnalysis) aliasOfExternalGlobal(g *ssa.Global) bool {
+	n := 0
+	fns := append([]*ssa.Function{}, o.p.Funcs...)
+	if ini := g.Pkg.Func("init"); ini != nil {
+		fns = append(fns, ini)
+	}
+	for _, fn := range fns {
+		for _, b := range fn.Blocks {
+			for _, in := range b.Instrs {
+				st, ok := in.(*ssa.Store)
+				if !ok || st.Addr != ssa.Value(g) {
+					continue
+				}
+				n++
+				v := st.Val
+				for {
+					switch y := v.(type) {
+					case *ssa.MakeInterface:
+						v = y.X
+						continue
+					case *ssa.ChangeInterface:
+						v = y.X
+						continue
+					}
+					break
+				}
+				u, isU := v.(*ssa.UnOp)
+				if !isU || u.Op != token.MUL {
+					return false
+				}
+				eg, isG := u.X.(*ssa.Global)
+				if !isG || eg.Pkg == nil || shortNames[eg.Pkg.Pkg.Path()] != "" {
+					return false
+				}
+			}
+		}
+	}
+	return n > 0
 }
